@@ -45,6 +45,7 @@ class Tracker(Monitor):
                   lambda inst, process, *a, **k: self.bump_stop(inst, process.application_name, 'process'))
         self.epoch = {}            # (nick, inc, app) -> plan counter (entry points of the Starter)
         self.queued_epochs = set()
+        self.distribution_epochs = set()
         self.received = {}         # (receiver nick, inc, source nick, namespec) -> (time, state) of the last event
         w.on_hook('fsm_process_event', self.on_process_event_received)
         w.on_hook('starter_start_applications', lambda inst, *a, **k: self.bump(inst, None))
@@ -116,6 +117,9 @@ class Tracker(Monitor):
         for app in apps:
             key = (inst.nick, inst.inc, app)
             self.epoch[key] = self.epoch.get(key, 0) + 1
+            if app_name is None:
+                # the automatic start of every application (DISTRIBUTION, restart_sequence)
+                self.distribution_epochs.add((inst.nick, inst.inc, app, self.epoch[key]))
             # a plan requested while another one of the same application is in progress at that instance is queued
             # behind it (or merged into it): the requests that follow cannot be attributed to one of them
             if app in busy:
@@ -362,10 +366,18 @@ class StartSequenceMonitor(Monitor):
                                      f"{other['namespec']} (application start_sequence {oapp_seq}) is not finished",
                                      case=run.describe())
             self.count('application_order_checks')
+        in_distribution_plan = (req['sender'], req['inc'], app_name, req['epoch']) in tr.distribution_epochs
+        if in_distribution_plan:
+            self.count('distribution_plan_emissions')
+            if app_seq == 0 or seq == 0:
+                self.violate('C03/sequence-0-started:by-the-automatic-start', f"{req['sender']} requested {namespec} "
+                             f"whose start_sequence is application={app_seq} process={seq} as part of the automatic "
+                             f"start of all applications at vt={vt(run.world)}", case=run.describe())
         if automatic:
             self.count('automatic_emissions')
-            # 3. sequence 0 is never started automatically
-            if (app_seq == 0 or seq == 0) and namespec not in tr.ever_started:
+            # 3. sequence 0 is never started automatically: never by the automatic start of all applications, and by
+            #    nothing else in DISTRIBUTION if it never ran (a running failure strategy may start it again)
+            if (app_seq == 0 or seq == 0) and namespec not in tr.ever_started and not in_distribution_plan:
                 self.violate('C03/sequence-0-started', f"{req['sender']} in DISTRIBUTION requested {namespec} whose "
                              f"start_sequence is application={app_seq} process={seq} and which never ran",
                              case=run.describe())
